@@ -111,7 +111,11 @@ def getcallarg(function, args, kwargs):
     if len(args):
         arg = args[0]
     else:
-        arg = kwargs[getargs(function)[0]]
+        names = getargs(function)
+        if len(names) and names[0] in kwargs:
+            arg = kwargs[names[0]]
+        else: ## first arg not provided: use its default (or None if there is no such arg)
+            arg = argspec_defaults(function).get(names[0]) if len(names) else None
     return arg
 
 
